@@ -343,9 +343,9 @@ impl Request {
             }
 
             if new_line_char_found && !current_string_is_empty {
-                let mut header = Header { name: "".to_string(), value: "".to_string() };
+                // the request line is not a header
                 if !is_first_iteration {
-                    header = Request::parse_http_request_header_string(&string);
+                    let header = Request::parse_http_request_header_string(&string);
                     if header.name == Header::_CONTENT_LENGTH {
                         // the value is informational here, a non-numeric one must not abort parsing
                         let boxed_content_length = header.value.trim().parse();
@@ -353,9 +353,9 @@ impl Request {
                             content_length = boxed_content_length.unwrap();
                         }
                     }
+                    request.headers.push(header);
                 }
 
-                request.headers.push(header);
                 iteration_number += 1;
             }
         }
